@@ -501,4 +501,161 @@ theorem frag_depth_between (a b c : List K) (h1 : a.length = b.length) (h2 : b.l
     have := mul_nonneg hC (sub_nonneg.mpr lc)
     linarith
 
+/-! ### The fragment of a clip-space triangle drawn through the viewport matrix -/
+
+/-- The ideal fragment of clip-space triangle `tri` at pixel (x, y) under screen matrix `m`. -/
+def pixFrag (m : Mat4 K) (tri : Tri K) (x y : Nat) : List K :=
+  idealFrag (toScreen m tri.a) (toScreen m tri.b) (toScreen m tri.c) x y
+
+/-- The centre of pixel (x, y) passes the three-edge-function test of `tri`'s screen projection. -/
+def InsideTri (m : Mat4 K) (tri : Tri K) (x y : Nat) : Prop :=
+  Inside (pt (toScreen m tri.a)) (pt (toScreen m tri.b)) (pt (toScreen m tri.c)) (centre x y)
+
+/-- **Perspective-correct content of a covered pixel.** `tri` is drawn through the viewport matrix
+`vpMat dx dy cx cy`, its three `w` are positive, and the centre of pixel (x, y) is inside its projection.
+Then there are weights γ₀, γ₁, γ₂ ≥ 0, Σγᵢ = 1 — the perspective-corrected barycentric coordinates
+`(aᵢ/wᵢ)/Σ(aⱼ/wⱼ)` of `persp_weights` — and a depth `d > 0` such that the ideal fragment is exactly
+`[x+½, y+½, d, Σγᵢ·attrᵢ …]` with
+  * attributes `Σγᵢ·attrᵢ` of the CLIP-space vertices (interpolation affine in clip space),
+  * `d · Σγᵢwᵢ = 1` (the depth slot is the reciprocal of the clip-space-affine `w`),
+  * and the pixel centre is the viewport image of the projection of the clip-space point `ΣγᵢPᵢ`. -/
+theorem pixFrag_persp (dx dy cx cy : K) (tri : Tri K) (x y : Nat)
+    (hwa : 0 < tri.a.pos.w) (hwb : 0 < tri.b.pos.w) (hwc : 0 < tri.c.pos.w)
+    (hin : InsideTri (vpMat dx dy cx cy) tri x y) :
+    ∃ g0 g1 g2 d : K, 0 ≤ g0 ∧ 0 ≤ g1 ∧ 0 ≤ g2 ∧ g0 + g1 + g2 = 1 ∧ 0 < d ∧
+      d * (g0 * tri.a.pos.w + g1 * tri.b.pos.w + g2 * tri.c.pos.w) = 1 ∧
+      pixFrag (vpMat dx dy cx cy) tri x y =
+        ((x : K) + 1 / 2) :: ((y : K) + 1 / 2) :: d :: combL g0 g1 g2 tri.a.attr tri.b.attr tri.c.attr ∧
+      (x : K) + 1 / 2 = cx + dx * ((g0 * tri.a.pos.x + g1 * tri.b.pos.x + g2 * tri.c.pos.x) * d) ∧
+      (y : K) + 1 / 2 = cy + dy * ((g0 * tri.a.pos.y + g1 * tri.b.pos.y + g2 * tri.c.pos.y) * d) := by
+  obtain ⟨hA, hB, hC, hsum, hX, hY⟩ := bary_of_inside _ _ _ x y hin
+  unfold pixFrag idealFrag idealRaw
+  generalize baryA (toScreen (vpMat dx dy cx cy) tri.a) (toScreen (vpMat dx dy cx cy) tri.b)
+    (toScreen (vpMat dx dy cx cy) tri.c) (centre x y) = α at *
+  generalize baryB (toScreen (vpMat dx dy cx cy) tri.a) (toScreen (vpMat dx dy cx cy) tri.b)
+    (toScreen (vpMat dx dy cx cy) tri.c) (centre x y) = β at *
+  generalize baryC (toScreen (vpMat dx dy cx cy) tri.a) (toScreen (vpMat dx dy cx cy) tri.b)
+    (toScreen (vpMat dx dy cx cy) tri.c) (centre x y) = γ at *
+  unfold vpMat at hX hY ⊢
+  rw [toScreen_spec, toScreen_spec, toScreen_spec] at hX hY ⊢
+  simp only [nth0, nth1] at hX hY
+  simp only [combL, zdiv]
+  obtain ⟨hs0, k0, k1, k2, ksum⟩ := persp_weights α β γ tri.a.pos.w tri.b.pos.w tri.c.pos.w hA hB hC hsum hwa hwb hwc
+  have hZ : α * (1 / tri.a.pos.w) + β * (1 / tri.b.pos.w) + γ * (1 / tri.c.pos.w)
+      = α / tri.a.pos.w + β / tri.b.pos.w + γ / tri.c.pos.w := by ring
+  rw [hZ]
+  set Z := α / tri.a.pos.w + β / tri.b.pos.w + γ / tri.c.pos.w with hZdef
+  have hZne : Z ≠ 0 := hs0.ne'
+  refine ⟨α / tri.a.pos.w / Z, β / tri.b.pos.w / Z, γ / tri.c.pos.w / Z, Z, k0, k1, k2, ksum, hs0, ?_, ?_, ?_, ?_⟩
+  · rw [persp_w α β γ _ _ _ hsum hwa.ne' hwb.ne' hwc.ne' hZne]
+    exact mul_one_div_cancel hZne
+  · rw [← hX, ← hY, combL_div α β γ _ _ _ Z _ _ _ hwa.ne' hwb.ne' hwc.ne' hZne]
+  · have e : (α / tri.a.pos.w / Z * tri.a.pos.x + β / tri.b.pos.w / Z * tri.b.pos.x
+        + γ / tri.c.pos.w / Z * tri.c.pos.x) * Z
+        = α * (tri.a.pos.x / tri.a.pos.w) + β * (tri.b.pos.x / tri.b.pos.w) + γ * (tri.c.pos.x / tri.c.pos.w) := by
+      field_simp
+    rw [e, hX]
+    linear_combination cx * hsum
+  · have e : (α / tri.a.pos.w / Z * tri.a.pos.y + β / tri.b.pos.w / Z * tri.b.pos.y
+        + γ / tri.c.pos.w / Z * tri.c.pos.y) * Z
+        = α * (tri.a.pos.y / tri.a.pos.w) + β * (tri.b.pos.y / tri.b.pos.w) + γ * (tri.c.pos.y / tri.c.pos.w) := by
+      field_simp
+    rw [e, hY]
+    linear_combination cy * hsum
+
+/-- **…in terms of the INPUT triangle.** If `tri` is one of the pieces the clipper emits for input triangle
+`t` (`tri = t` when `t` needs no clipping), the covered pixel's fragment is `[x+½, y+½, d, Σγᵢ·attrᵢ …]` with
+the attributes `attrᵢ` of `t`'s OWN vertices, γ ≥ 0, Σγᵢ = 1, `d` the reciprocal of the clip-space-affine
+`w = Σγᵢwᵢ` of that point of `t`, and the pixel centre the viewport image of its projection: the pixel shows
+the point of the input triangle that projects onto its centre, perspective-correctly interpolated. -/
+theorem pixFrag_input (dx dy cx cy : K) (t tri : Tri K) (htri : tri ∈ clipTri t)
+    (hlen : t.a.attr.length = t.b.attr.length ∧ t.b.attr.length = t.c.attr.length) (x y : Nat)
+    (hwa : 0 < tri.a.pos.w) (hwb : 0 < tri.b.pos.w) (hwc : 0 < tri.c.pos.w)
+    (hin : InsideTri (vpMat dx dy cx cy) tri x y) :
+    ∃ g0 g1 g2 d : K, 0 ≤ g0 ∧ 0 ≤ g1 ∧ 0 ≤ g2 ∧ g0 + g1 + g2 = 1 ∧ 0 < d ∧
+      d * (g0 * t.a.pos.w + g1 * t.b.pos.w + g2 * t.c.pos.w) = 1 ∧
+      pixFrag (vpMat dx dy cx cy) tri x y =
+        ((x : K) + 1 / 2) :: ((y : K) + 1 / 2) :: d :: combL g0 g1 g2 t.a.attr t.b.attr t.c.attr ∧
+      (x : K) + 1 / 2 = cx + dx * ((g0 * t.a.pos.x + g1 * t.b.pos.x + g2 * t.c.pos.x) * d) ∧
+      (y : K) + 1 / 2 = cy + dy * ((g0 * t.a.pos.y + g1 * t.b.pos.y + g2 * t.c.pos.y) * d) := by
+  obtain ⟨a0, b0, c0, pa0, pb0, pc0, hs0, hp0, hA0⟩ :=
+    Retro.Props.C03.clip_bary t hlen tri htri tri.a (by simp [Retro.Props.C03.triVerts])
+  obtain ⟨a1, b1, c1, pa1, pb1, pc1, hs1, hp1, hA1⟩ :=
+    Retro.Props.C03.clip_bary t hlen tri htri tri.b (by simp [Retro.Props.C03.triVerts])
+  obtain ⟨a2, b2, c2, pa2, pb2, pc2, hs2, hp2, hA2⟩ :=
+    Retro.Props.C03.clip_bary t hlen tri htri tri.c (by simp [Retro.Props.C03.triVerts])
+  rw [c03_combL_eq] at hA0 hA1 hA2
+  obtain ⟨g0, g1, g2, d, k0, k1, k2, ksum, hpos, hw, hform, hX, hY⟩ :=
+    pixFrag_persp dx dy cx cy tri x y hwa hwb hwc hin
+  have hwA : tri.a.pos.w = a0 * t.a.pos.w + b0 * t.b.pos.w + c0 * t.c.pos.w := by rw [hp0]; rfl
+  have hwB : tri.b.pos.w = a1 * t.a.pos.w + b1 * t.b.pos.w + c1 * t.c.pos.w := by rw [hp1]; rfl
+  have hwC : tri.c.pos.w = a2 * t.a.pos.w + b2 * t.b.pos.w + c2 * t.c.pos.w := by rw [hp2]; rfl
+  have hxA : tri.a.pos.x = a0 * t.a.pos.x + b0 * t.b.pos.x + c0 * t.c.pos.x := by rw [hp0]; rfl
+  have hxB : tri.b.pos.x = a1 * t.a.pos.x + b1 * t.b.pos.x + c1 * t.c.pos.x := by rw [hp1]; rfl
+  have hxC : tri.c.pos.x = a2 * t.a.pos.x + b2 * t.b.pos.x + c2 * t.c.pos.x := by rw [hp2]; rfl
+  have hyA : tri.a.pos.y = a0 * t.a.pos.y + b0 * t.b.pos.y + c0 * t.c.pos.y := by rw [hp0]; rfl
+  have hyB : tri.b.pos.y = a1 * t.a.pos.y + b1 * t.b.pos.y + c1 * t.c.pos.y := by rw [hp1]; rfl
+  have hyC : tri.c.pos.y = a2 * t.a.pos.y + b2 * t.b.pos.y + c2 * t.c.pos.y := by rw [hp2]; rfl
+  refine ⟨g0 * a0 + g1 * a1 + g2 * a2, g0 * b0 + g1 * b1 + g2 * b2, g0 * c0 + g1 * c1 + g2 * c2, d,
+    ?_, ?_, ?_, ?_, hpos, ?_, ?_, ?_, ?_⟩
+  · exact add_nonneg (add_nonneg (mul_nonneg k0 pa0) (mul_nonneg k1 pa1)) (mul_nonneg k2 pa2)
+  · exact add_nonneg (add_nonneg (mul_nonneg k0 pb0) (mul_nonneg k1 pb1)) (mul_nonneg k2 pb2)
+  · exact add_nonneg (add_nonneg (mul_nonneg k0 pc0) (mul_nonneg k1 pc1)) (mul_nonneg k2 pc2)
+  · linear_combination g0 * hs0 + g1 * hs1 + g2 * hs2 + ksum
+  · rw [← hw, hwA, hwB, hwC]; ring
+  · rw [hform, hA0, hA1, hA2, combL_combL]
+  · rw [hX, hxA, hxB, hxC]; ring
+  · rw [hY, hyA, hyB, hyC]; ring
+
+/-! ### Decidability (so that concrete scenes can be decided by the kernel) -/
+
+instance decInside (a b c p : K × K) : Decidable (Inside a b c p) := by
+  unfold Inside EdgeOK OKs Owns; infer_instance
+
+instance decInsideTri (m : Mat4 K) (tri : Tri K) (x y : Nat) : Decidable (InsideTri m tri x y) := by
+  unfold InsideTri; infer_instance
+
+/-! ### Non-vacuity (ℚ): the triangle (2,1), (8,5), (4,6) with depths 1, ½, ¼ and attributes 0, 3, 6 -/
+
+section Examples
+
+private theorem exA_y : ∀ v ∈ [([2, 1, 1, 0] : List Rat), [8, 5, 1 / 2, 3], [4, 6, 1 / 4, 6]], -(1 / 2) ≤ nth1 v := by
+  intro v hv
+  simp only [List.mem_cons, List.mem_nil_iff, or_false] at hv
+  rcases hv with rfl | rfl | rfl <;> norm_num [nth1]
+
+private theorem exA_x : ∀ v ∈ [([2, 1, 1, 0] : List Rat), [8, 5, 1 / 2, 3], [4, 6, 1 / 4, 6]], -(1 / 2) ≤ nth0 v := by
+  intro v hv
+  simp only [List.mem_cons, List.mem_nil_iff, or_false] at hv
+  rcases hv with rfl | rfl | rfl <;> norm_num [nth0]
+
+/-- Pixel (4,3): its centre is inside, so by `fragsAt_trifill_ideal` it receives exactly the ideal fragment … -/
+example : fragsAt (triFill (α := Rat) [2, 1, 1, 0] [8, 5, 1 / 2, 3] [4, 6, 1 / 4, 6]) 4 3 =
+    [idealFrag ([2, 1, 1, 0] : List Rat) [8, 5, 1 / 2, 3] [4, 6, 1 / 4, 6] 4 3] :=
+  (fragsAt_trifill_ideal (K := Rat) [2, 1, 1, 0] [8, 5, 1 / 2, 3] [4, 6, 1 / 4, 6] 4 (by omega) rfl rfl rfl
+    exA_y exA_x 4 3).1
+    (by norm_num [Inside, EdgeOK, OKs, Owns, edgeFn, orient, cross, sgn, pt, nth0, nth1, centre])
+
+/-- … which is the centre (4½, 3½), depth 29/44 (between ¼ and 1), attribute 105/29; the model run by the
+kernel agrees, and pixel (2,3), whose centre is outside, receives nothing. -/
+example : idealFrag ([2, 1, 1, 0] : List Rat) [8, 5, 1 / 2, 3] [4, 6, 1 / 4, 6] 4 3 = [9 / 2, 7 / 2, 29 / 44, 105 / 29] ∧
+    fragsAt (triFill (α := Rat) [2, 1, 1, 0] [8, 5, 1 / 2, 3] [4, 6, 1 / 4, 6]) 4 3 = [[9 / 2, 7 / 2, 29 / 44, 105 / 29]] ∧
+    fragsAt (triFill (α := Rat) [2, 1, 1, 0] [8, 5, 1 / 2, 3] [4, 6, 1 / 4, 6]) 2 3 = [] := by
+  decide +kernel
+
+example : fragsAt (triFill (α := Rat) [2, 1, 1, 0] [8, 5, 1 / 2, 3] [4, 6, 1 / 4, 6]) 2 3 = [] :=
+  (fragsAt_trifill_ideal (K := Rat) [2, 1, 1, 0] [8, 5, 1 / 2, 3] [4, 6, 1 / 4, 6] 4 (by omega) rfl rfl rfl
+    exA_y exA_x 2 3).2
+    (by norm_num [Inside, EdgeOK, OKs, Owns, edgeFn, orient, cross, sgn, pt, nth0, nth1, centre])
+
+/-- `fragsAt_trifill` (item 1) on the same pixel: the covering row is row 3, span [3, 6), fragment index 1. -/
+example : ∃ row ∈ triFill (α := Rat) [2, 1, 1, 0] [8, 5, 1 / 2, 3] [4, 6, 1 / 4, 6], ∃ f,
+    row.y = 3 ∧ row.x0 ≤ 4 ∧ 4 < row.x1 ∧ row.frags[4 - row.x0]? = some f ∧
+    (∀ row' ∈ triFill (α := Rat) [2, 1, 1, 0] [8, 5, 1 / 2, 3] [4, 6, 1 / 4, 6], row'.y = 3 → row' = row) ∧
+    fragsAt (triFill (α := Rat) [2, 1, 1, 0] [8, 5, 1 / 2, 3] [4, 6, 1 / 4, 6]) 4 3 = [zdiv f] :=
+  (fragsAt_trifill (K := Rat) [2, 1, 1, 0] [8, 5, 1 / 2, 3] [4, 6, 1 / 4, 6] 4 (by omega) rfl rfl rfl exA_y 4 3).2
+    (by unfold Covers; decide +kernel)
+
+end Examples
+
 end Retro.Props.C01
